@@ -71,16 +71,36 @@ def run_units(units, use_cvc5=True, procs=None):
         return pool.map(_work, jobs, chunksize=1)
 
 
-def owns(ob, prop):
+_UNIT_PROPS = None
+
+
+def unit_props():
+    """unit name -> set of properties whose check lists it"""
+    global _UNIT_PROPS
+    if _UNIT_PROPS is None:
+        import contracts.properties as props
+        _UNIT_PROPS = {}
+        for p, cfg in props.PROPS.items():
+            for q, rc in cfg["units"]:
+                _UNIT_PROPS.setdefault((rc + "::" if rc else "") + q, set()).add(p)
+    return _UNIT_PROPS
+
+
+def owns(ob, prop, unit=None):
     """does obligation `ob` decide property `prop`?  Clauses labelled `Cxx:` belong to that property
     only; unlabelled obligations (definedness, types, frames, pre-call, loops) belong to every
-    property that lists the unit."""
+    property that lists the unit.  A labelled clause none of whose properties lists the unit it was
+    generated in (e.g. a `C10:` precondition of a callee proved inside a unit that only C01 lists) would
+    be reported by no check at all: such a clause belongs to every property that lists the unit."""
     lab = ob["label"]
     import re
-    m = re.match(r"(?:.*:)?(C\d\d):", lab) or re.match(r"(C\d\d):", lab)
     tags = re.findall(r"C\d\d(?=[:+])", lab.split("@")[0])
     if tags:
-        return prop in tags
+        if prop in tags:
+            return True
+        if unit is not None and not (set(tags) & unit_props().get(unit, set())):
+            return True
+        return False
     return True
 
 
